@@ -114,8 +114,8 @@ func C20(run *hx.Run) {
 	var catalogs [][]op
 	var seq []map[string]string
 	for i := 0; i < nFiles; i++ {
-		// file 3 has the same table names and column lists as the others, but another primary key order in t_wr
-		d, err := hx.BuildDB(o, dir, fmt.Sprintf("c%d", i), hx.M{"page_size": []int{512, 4096, 1024, 1024}[i], "rows": []int{150, 300, 200, 200}[i], "frag": i == 1, "wr_variant": i == 3}, run.Seed*5+int64(i))
+		// file 0 is larger than the 100-page cache of a handle (every full scan evicts); file 3 has the same table names and column lists as the others, but another primary key order in t_wr
+		d, err := hx.BuildDB(o, dir, fmt.Sprintf("c%d", i), hx.M{"page_size": []int{512, 4096, 1024, 1024}[i], "rows": []int{1500, 300, 200, 200}[i], "frag": i == 1, "wr_variant": i == 3}, run.Seed*5+int64(i))
 		if err != nil {
 			run.Inconclusive("corpus: " + err.Error())
 			o.Close()
